@@ -760,6 +760,9 @@ class Interp:
             raise PyExc(AttributeError, ('partial has no attribute %r' % name,))
         if isinstance(o, (str, Opaque)):
             if name in ('format', 'join', 'split', 'lstrip', 'rpartition', 'startswith', 'strip'):
+                if isinstance(o, str) and name in ('format', 'join'):
+                    return (lambda *a, **k: self.models.str_format(self, o, a, k)) if name == 'format' else \
+                        (lambda it: self.models.str_join(self, o, it))
                 if isinstance(o, Opaque) or name in ('format', 'join'):
                     op = o if isinstance(o, Opaque) else Opaque()
                     if name in ('format', 'join'):
@@ -1347,9 +1350,20 @@ class Interp:
         return d
 
     def ev_JoinedStr(self, e, f):
+        parts = []
         for v in e.values:
             if isinstance(v, ast.FormattedValue):
-                self.ev(v.value, f)
+                x = self.ev(v.value, f)
+                if v.format_spec is not None:
+                    parts.append(Opaque())
+                elif v.conversion == ord('r'):
+                    parts.append(self.models.py_repr(self, x))
+                else:
+                    parts.append(self.models.py_str(self, x))
+            else:
+                parts.append(self.ev(v, f))
+        if all(isinstance(p, str) for p in parts):
+            return ''.join(parts)
         return Opaque()
 
     def ev_BoolOp(self, e, f):
